@@ -314,12 +314,34 @@ class SchedCtx(object):
         return self.inner.setValues(fx, address, values)
 
 
+_CUR_SCHED = [None]
+_SCHED_CLASSES = []
+
+
+def _sched_request_classes():
+    """the standard request classes with a scheduling point inside decode(): a handler thread can be pre-empted while the
+    (shared) decoder is half-way through building its request"""
+    if not _SCHED_CLASSES:
+        from pymodbus.factory import ServerDecoder
+        from harness import framers as _fr
+        for cls in _fr.standard_classes(ServerDecoder):
+            def decode(self, data, _cls=cls):
+                if _CUR_SCHED[0] is not None:
+                    _CUR_SCHED[0].point('pdu-decode')
+                return _cls.decode(self, data)
+            _SCHED_CLASSES.append(type(cls.__name__, (cls,), dict(decode=decode, __doc__=cls.__doc__)))
+    return _SCHED_CLASSES
+
+
 class SchedDecoder(object):
     """the server's decoder with a scheduling point where a handler thread can be pre-empted between checking a
-    frame and labelling the decoded request with the frame's ids"""
+    frame and labelling the decoded request with the frame's ids, and one inside every request's decode()"""
 
     def __init__(self, inner, s):
         self.inner, self.s = inner, s
+        _CUR_SCHED[0] = s
+        for cls in _sched_request_classes():
+            inner.register(cls)
 
     def decode(self, data):
         self.s.point('decode')
